@@ -165,6 +165,34 @@ func c03FaultScenarios(tier string) []*h.Scenario {
 		s.Events = func(hh *h.Hist, slot int) []h.Event { return []h.Event{evRefreshFails(), evRestart()} }
 		out = append(out, s)
 	}
+	// below min_nodes with tainted nodes to restore: the API rejects every call on one tainted node
+	// (the restore must not be lost from then on), and the cloud group holds an instance that never
+	// joins (the restore works on untainted nodes, not on the cloud target)
+	for _, ghost := range []bool{false, true} {
+		p := c03Case{U: 2, TFresh: 2, Min: 3, Slow: 5, Fast: 9, Band: "fast"}
+		s := c03Build(p)
+		s.Name = fmt.Sprintf("c03.restore-rejected.ghost-%v", ghost)
+		s.Slots = 4
+		g0 := s.Groups[0]
+		if ghost {
+			inner := s.Init
+			s.Init = func(hh *h.Hist) {
+				inner(hh)
+				hh.W.AddPendingInstance(hh.W.FindASG(g0.ASG.Name))
+			}
+		}
+		s.MaxEventsPerSlot = 1
+		s.Events = func(hh *h.Hist, slot int) []h.Event {
+			var ev []h.Event
+			for _, n := range groupNodes(hh, g0, 6) {
+				if _, t := h.HasTaint(n, h.TaintKey); t {
+					ev = append(ev, evRejectNode(n.Name))
+				}
+			}
+			return append(ev, evRestart())
+		}
+		out = append(out, s)
+	}
 	// the node / pod listers fail in a scan after nodes have vanished
 	{
 		p := c03Case{U: 5, Min: 3, Slow: 5, Fast: 9, Band: "none"}
